@@ -8,7 +8,7 @@ ROOT = os.path.dirname(os.path.dirname(os.path.abspath(__file__)))
 ENGINES = [
     {"name": "E1 irprop", "path": "vlib/gen_ir.py, vlib/hops.py", "serves_properties": ["C01", "C02", "C03", "C04", "C05", "C06", "C08", "C14"], "kind_free_text": "Hypothesis @given / RuleBasedStateMachine over interface descriptions, one hop or a history of hops, oracle on the resulting IR"},
     {"name": "E2 progprop", "path": "vlib/gen_prog.py, vlib/gen_models.py", "serves_properties": ["C07", "C12", "C13", "C16", "C19", "C20"], "kind_free_text": "Hypothesis over generated files on disk; command run in-process through the function `python -m cdd` dispatches to; before/after comparison by ast, tokenize, bytes"},
-    {"name": "E3 textfuzz", "path": "checks/C09.py, checks/C11.py, checks/C15.py", "serves_properties": ["C09", "C11", "C14", "C15"], "kind_free_text": "exhaustive enumeration of token sequences to a length, then Hypothesis text over the same alphabet, then repository files and mutations of them"},
+    {"name": "E3 textfuzz", "path": "checks/C09.py, checks/C11.py, checks/C15.py", "serves_properties": ["C09", "C11", "C14", "C15"], "kind_free_text": "exhaustive enumeration of token sequences to a length, then Hypothesis text over the same alphabet, then repository files and mutations of them, then (C09, C14) atheris campaigns in a fresh interpreter with the oracle inside the fuzz target"},
     {"name": "E4 procs", "path": "checks/C10.py, checks/C18.py", "serves_properties": ["C10", "C18"], "kind_free_text": "pool of fresh interpreters with controlled PYTHONHASHSEED / import order / call script; parent compares digests"},
     {"name": "E5 monitor", "path": "vlib/monitor.py", "serves_properties": ["C17", "C20"], "kind_free_text": "sys.addaudithook event recorder + sentinels + file-system snapshot wrapped around generated cases"},
 ]
@@ -23,8 +23,8 @@ def check(pid, technique, text, note, ref=None, thorough=True):
 
 check(
     "C09",
-    "exhaustive token-sequence enumeration + Hypothesis text + file mutation fuzzing against the reconstruction/tiling identity",
-    "Generated-input search: every string of <=5 (quick) / <=6 (thorough) tokens of a 19-token lexical alphabet and every string of <=4 / <=5 tokens of a second 17-token alphabet of bracketed expression statements is enumerated, then Hypothesis strings over alphabet and corpus lines, arbitrary unicode, and repository files whole/truncated/line-mutated; for each the concatenation identity and the line tiling are checked exactly. Within the enumerated bound absence of a counterexample is established; beyond it this is sampling.",
+    "exhaustive token-sequence enumeration + Hypothesis text + file mutation fuzzing + coverage-guided fuzzing (atheris/libFuzzer, oracle inside the target, seeded and empty corpus) against the reconstruction/tiling identity",
+    "Generated-input search: every string of <=5 (quick) / <=6 (thorough) tokens of a 19-token lexical alphabet and every string of <=4 / <=5 tokens of a second 17-token alphabet of bracketed expression statements is enumerated, then Hypothesis strings over alphabet and corpus lines, arbitrary unicode, and repository files whole/truncated/line-mutated, then two atheris campaigns (4 000 runs each in quick, 16 x 400 000 in thorough; bytes decoded as UTF-8 text, as token indices, or mixed); for each the concatenation identity and the line tiling are checked exactly. Within the enumerated bound absence of a counterexample is established; beyond it this is sampling.",
     "Trusts CPython str operations and that the scanner is a pure function of its argument; inputs longer than the generated sizes and alphabets outside the stated one are only sampled.",
 )
 
@@ -103,7 +103,7 @@ check(
 
 check(
     "C14",
-    "Hypothesis over six input families (grammar docstrings, hand-shaped defs, emitter output in 8 formats, token soups, LIVE imported function/class objects, hand-shaped JSON-schemas with $ref/anyOf/nullable/format/items); shape-validator oracle plus signature-coverage oracle with the ast signature as reference",
+    "Hypothesis over six input families (grammar docstrings, hand-shaped defs, emitter output in 8 formats, token soups, LIVE imported function/class objects, hand-shaped JSON-schemas with $ref/anyOf/nullable/format/items, hand-shaped SQLAlchemy models) + coverage-guided fuzzing of the docstring parser (atheris/libFuzzer, oracle inside the target); shape-validator oracle plus signature-coverage oracle with the ast signature as reference",
     "Generated-input search over parser inputs; every returned interface description is validated against the documented shape (keys, name constraints, uniqueness, key set of each entry, `typ` parses as an expression, string descriptions, single return_type entry), and for function parsers every positional-or-keyword / keyword-only parameter of the signature must appear exactly once.",
     "Exceptions are acceptable outcomes except on input the emitters themselves produced. Relaxed: P30 (ill-formed text: empty names / unparseable types), P35 (*args, **kwargs, positional-only), P29 (sqlalchemy None / server_default keys), P20/P49 (footer garbage in typ), P22.",
 )
